@@ -133,7 +133,53 @@ def run(ctx, chk):
             a = e.args[-1]
             if a.kind == "int" and a.aff is not None and lin_equal_witness(a.aff, want, I.atom_ranges())[0] == "equal":
                 okp = True
+        # .. and it is pushed on every path that enters the procedure: the push (or the call of a helper that pushes
+        # unconditionally) dominates the construction of the JMP outcome
+        cond_push = None
         if okp:
+            by_name = {f_["name"]: f_ for f_ in P.fns.values()}
+
+            def dominates_all(fn_, bb_, targets):
+                c_ = M.CFG(fn_)
+                return bool(targets) and all(c_.dominates(bb_, t_) for t_ in targets if t_ in c_.reach)
+
+            def jmp_blocks(fn_):
+                out_ = []
+                for bi_, b_ in enumerate(fn_["blocks"]):
+                    for s_ in b_.get("stmts", []):
+                        if s_[0] == "assign" and s_[2][0] == "agg" and isinstance(s_[2][1], dict) and s_[2][1].get("vname") == "JMP":
+                            out_.append(bi_)
+                return out_
+
+            def returns(fn_):
+                return [bi_ for bi_, b_ in enumerate(fn_["blocks"]) if M.term(b_)[0] == "return"]
+            good = False
+            for e in pushed:
+                a = e.args[-1]
+                if not (a.kind == "int" and a.aff is not None and lin_equal_witness(a.aff, want, I.atom_ranges())[0] == "equal"):
+                    continue
+                if not any(str(c).endswith("::push") for c in e.callee):
+                    continue   # a helper with `push` in its name: judged through the push inside it
+                f_ = by_name.get(e.fn)
+                if f_ is None:
+                    continue
+                jb = jmp_blocks(f_)
+                if jb:
+                    good = good or dominates_all(f_, e.bb, jb)
+                elif dominates_all(f_, e.bb, returns(f_)):
+                    # a helper that always pushes: the call of the helper must dominate the JMP in its caller
+                    for c_ev in I.events:
+                        if c_ev.kind == "call" and c_ev.callee and any(P.fns.get(cid, {}).get("name") == e.fn for cid in c_ev.callee):
+                            fc = by_name.get(c_ev.fn)
+                            if fc is not None and jmp_blocks(fc) and dominates_all(fc, c_ev.bb, jmp_blocks(fc)):
+                                good = True
+            if not good:
+                cond_push = True
+        if okp and cond_push:
+            chk.violation("C08.R4", "call", "return-address-pushed-conditionally",
+                          "call pushes current+1 only on some of the paths that enter the procedure (the push, or the helper that pushes, is guarded by a test): an activation "
+                          "whose return index is not stacked makes a later RET resume in an outer caller", where)
+        elif okp:
             chk.ok("C08.R4", "call:return-address", "call_stack.push(current + 1)")
         else:
             chk.violation("C08.R4", "call", "return-address", f"call does not push current+1 ({[repr(e.args[-1]) for e in pushed]})", where)
